@@ -238,15 +238,22 @@ class C12(Prop):
   trusted_base = [
       'harness/c11_geno.py reference of members (case generation) and swap_sites (which node Swap picks)',
       'Swap is driven by a scripted random source (shuffle = identity, sample = recorded pair)',
-      'from_dict is modelled (dictionary look-ups by id / name with list popping, candidate_index incl. its two regular '
-      'expressions for ASCII digits) and compared on the 30 option triples; verbose JSON and dna[...] lookups are checked '
-      'by the oracle on the real code only',
-      'modelled, not verified: to_numbers, from_numbers, compact form and its parser, use_spec beliefs, ids, to_dict '
-      '(the 30 to_dict option triples and the node bindings after every producer step are compared verbatim; '
-      'no Lean theorem about to_dict / from_dict)',
+      'to_dict / from_dict are modelled (look-ups by id / name with list popping, candidate_index incl. its two regular '
+      'expressions for ASCII digits), compared on the 30 option triples, and from_dict(to_dict(...)) = d is a Lean theorem '
+      'for every triple under the decidable condition dictCond (evaluated by the driver; where it holds the code must round-trip)',
+      'the verbose JSON form and the look-up structures (_decision_by_id, named_decisions, decision_ids, dna[dp/id/name]) are '
+      'modelled and compared on every DNA (named_decisions only when no two decision points render to the same id: the '
+      'code keys its intermediate dictionary by spec object, the model by id); node identity of look-up results is '
+      'checked on the code only',
+      'cache discipline: T-CACHE (translate/t_c12.py) lists every write to the two caches in pyglove/core/geno; that pg '
+      'symbolic objects call _on_bound after every rebind and build clones through __init__ is trusted (and exercised by '
+      'the look-ups made before and after every producer step)',
+      'modelled, not verified: to_numbers, from_numbers, compact form and its parser, use_spec beliefs, ids '
+      '(compared verbatim on every run)',
       'float literal values, hints, userdata, metadata and format() are outside the model',
   ]
   assumptions = ['decision-point names and location keys are plain identifiers (no dots / brackets)',
+                 'a decision-point name is used by one definition only (enforced by Space._validate_space)',
                  'DNA objects are only built through the DNA constructor']
 
   # -- generation -------------------------------------------------------------------------
